@@ -588,6 +588,38 @@ func ruleNilErr(p *Program, r *Reporter) {
 				continue
 			}
 			v := returnOperand(ret, 0)
+			// a list together with a status: the status says whether the parse
+			// failed, the list may well be empty (nil) when it did not
+			if rs := sigResults(fn); len(rs) == 2 && isBoolType(rs[1]) {
+				if _, isSlice := rs[0].Underlying().(*types.Slice); isSlice {
+					where := ret.Pos()
+					if !where.IsValid() {
+						where = fn.Pos()
+					}
+					nth := 0
+					for _, b2 := range fn.Blocks {
+						if b2 == b {
+							break
+						}
+						if _, isRet := terminator(b2).(*ssa.Return); isRet {
+							nth++
+						}
+					}
+					k := fmt.Sprintf("%s/return %d of a list with its status", p.FnName(fn), nth+1)
+					st, isK := returnOperand(ret, 1).(*ssa.Const)
+					switch {
+					case isK && st.Value != nil && st.Value.Kind() == constant.Bool && constant.BoolVal(st.Value):
+						r.OkNT(k, p.Pos(where), "reports success: the list is what was parsed, possibly nothing")
+					case a.recordedAt(fn, ret, out, edge):
+						r.OkNT(k, p.Pos(where), "an error is recorded on every path to this return")
+					case isK:
+						r.Fail(k, p.Pos(where), "this parse function reports failure on a path where no error has been appended to the parser's error list: the caller gives up silently and Prepare can succeed")
+					default:
+						r.Undecided(k, p.Pos(where), "cannot decide what the status is on a path where no error has been recorded")
+					}
+					continue
+				}
+			}
 			a.checkReturn(r, fn, ret, v, out, edge)
 		}
 	}
@@ -851,6 +883,29 @@ func registrations(p *Program) []registration {
 					continue
 				}
 				if _, isSig := nt.Underlying().(*types.Signature); !isSig {
+					continue
+				}
+				// registrations made in a loop over a local table of {token, function}
+				// entries: one registration per entry of the literal
+				if al, kf, ff, n, ok := localEntryTable(c.Call.Args[1], c.Call.Args[2]); ok {
+					tbl := "nullary:" + cal.Name()
+					if sig, ok := nt.Underlying().(*types.Signature); ok && sig.Params().Len() == 1 {
+						tbl = "registerInfix"
+					}
+					for i := 0; i < n; i++ {
+						kv, fv := literalEntryField(al, i, kf), literalEntryField(al, i, ff)
+						rg := registration{table: tbl, fnType: nt.Obj().Name(), pos: c.Pos()}
+						if k, ok := kv.(*ssa.Const); ok && k.Value != nil && k.Value.Kind() == constant.String {
+							rg.tok = constant.StringVal(k.Value)
+						}
+						if fv != nil {
+							rg.method = entryMethod(fv)
+							if rg.pos = fv.Pos(); !rg.pos.IsValid() {
+								rg.pos = c.Pos()
+							}
+						}
+						out = append(out, rg)
+					}
 					continue
 				}
 				rg := registration{table: cal.Name(), fnType: nt.Obj().Name(), pos: c.Pos()}
@@ -1965,29 +2020,71 @@ func ternarySearchComplete(p *Program, r *Reporter, h *ssa.Function) {
 		}
 	}
 	cases := map[string]*ast.CaseClause{}
+	caseInfo := map[*ast.CaseClause]*types.Info{}
+	caseVar := map[*ast.CaseClause]*ast.Ident{}
 	var swVar *ast.Ident
-	ast.Inspect(decl.Body, func(n ast.Node) bool {
-		ts, ok := n.(*ast.TypeSwitchStmt)
-		if !ok {
-			return true
+	// the cases of the type switch — and, when its default clause hands the
+	// node on to another walker of the package (the search split by families
+	// of nodes), the cases of that one too
+	seenDecl := map[*ast.FuncDecl]bool{}
+	var collect func(d *ast.FuncDecl, inf *types.Info, depth int)
+	collect = func(d *ast.FuncDecl, inf *types.Info, depth int) {
+		if d == nil || inf == nil || seenDecl[d] || depth > 5 {
+			return
 		}
-		if as, ok := ts.Assign.(*ast.AssignStmt); ok && len(as.Lhs) == 1 {
-			swVar, _ = as.Lhs[0].(*ast.Ident)
-		}
-		for _, c := range ts.Body.List {
-			cc := c.(*ast.CaseClause)
-			for _, e := range cc.List {
-				if tv, ok := info.Types[e]; ok {
-					if pt, ok := tv.Type.(*types.Pointer); ok {
-						if nm, ok := types.Unalias(pt.Elem()).(*types.Named); ok {
-							cases[nm.Obj().Name()] = cc
+		seenDecl[d] = true
+		ast.Inspect(d.Body, func(n ast.Node) bool {
+			ts, ok := n.(*ast.TypeSwitchStmt)
+			if !ok {
+				return true
+			}
+			var sv *ast.Ident
+			if as, ok := ts.Assign.(*ast.AssignStmt); ok && len(as.Lhs) == 1 {
+				sv, _ = as.Lhs[0].(*ast.Ident)
+			}
+			if swVar == nil {
+				swVar = sv
+			}
+			for _, c := range ts.Body.List {
+				cc := c.(*ast.CaseClause)
+				if cc.List == nil {
+					// default: a call of a function of the package with a node argument
+					for _, st := range cc.Body {
+						ast.Inspect(st, func(x ast.Node) bool {
+							ce, ok := x.(*ast.CallExpr)
+							if !ok {
+								return true
+							}
+							if fo, ok := calleeObj(inf, ce).(*types.Func); ok && fo.Pkg() != nil && fo.Pkg().Path() == Mod+"/parser" {
+								for _, g := range parserFns(p) {
+									if g.Object() == types.Object(fo) && g != h {
+										collect(p.FuncDecl(g), p.Info(g), depth+1)
+									}
+								}
+							}
+							return true
+						})
+					}
+					continue
+				}
+				for _, e := range cc.List {
+					if tv, ok := inf.Types[e]; ok {
+						if pt, ok := tv.Type.(*types.Pointer); ok {
+							if nm, ok := types.Unalias(pt.Elem()).(*types.Named); ok {
+								if _, dup := cases[nm.Obj().Name()]; !dup {
+									cases[nm.Obj().Name()] = cc
+									caseInfo[cc] = inf
+									caseVar[cc] = sv
+								}
+							}
 						}
 					}
 				}
 			}
-		}
-		return false
-	})
+			return false
+		})
+	}
+	collect(decl, info, 0)
 	n := 0
 	for _, nm := range structs {
 		if !reach[nm] || nm == target || !canContain(nm) {
@@ -2013,6 +2110,7 @@ func ternarySearchComplete(p *Program, r *Reporter, h *ssa.Function) {
 				continue
 			}
 			mentioned := false
+			info, swVar := caseInfo[cc], caseVar[cc]
 			for _, stmt := range cc.Body {
 				ast.Inspect(stmt, func(x ast.Node) bool {
 					if se, ok := x.(*ast.SelectorExpr); ok && se.Sel.Name == f.Name() {
@@ -2368,4 +2466,115 @@ func endsByDemanding(pr *parserRoles, h *ssa.Function, kind string) bool {
 		}
 	}
 	return n > 0
+}
+
+// localEntryTable: the two values are fields of the element a range loop
+// takes out of a slice literal that is local to the function — the array
+// behind the literal, the two field indexes and the number of entries.
+func localEntryTable(kv, fv ssa.Value) (al *ssa.Alloc, kf, ff, n int, ok bool) {
+	strip := func(v ssa.Value) ssa.Value {
+		for {
+			if ct, isCT := v.(*ssa.ChangeType); isCT {
+				v = ct.X
+				continue
+			}
+			return v
+		}
+	}
+	fieldOfElem := func(v ssa.Value) (*ssa.Alloc, int, bool) {
+		switch x := strip(v).(type) {
+		case *ssa.Field:
+			ld, ok := x.X.(*ssa.UnOp)
+			if !ok || ld.Op != token.MUL {
+				return nil, 0, false
+			}
+			ia, ok := ld.X.(*ssa.IndexAddr)
+			if !ok {
+				return nil, 0, false
+			}
+			if a, ok := literalArray(ia.X); ok {
+				return a, x.Field, true
+			}
+		case *ssa.UnOp:
+			// entry kept in a variable: *(&entry.field) with entry stored from the element
+			if fa, ok := x.X.(*ssa.FieldAddr); ok && x.Op == token.MUL {
+				if ia, ok := fa.X.(*ssa.IndexAddr); ok {
+					if a, ok := literalArray(ia.X); ok {
+						return a, fa.Field, true
+					}
+				}
+				if loc, ok := fa.X.(*ssa.Alloc); ok && loc.Referrers() != nil {
+					for _, ref := range *loc.Referrers() {
+						if st, ok := ref.(*ssa.Store); ok && st.Addr == ssa.Value(loc) {
+							if ld, ok := st.Val.(*ssa.UnOp); ok && ld.Op == token.MUL {
+								if ia, ok := ld.X.(*ssa.IndexAddr); ok {
+									if a, ok := literalArray(ia.X); ok {
+										return a, fa.Field, true
+									}
+								}
+							}
+						}
+					}
+				}
+			}
+		}
+		return nil, 0, false
+	}
+	a1, f1, ok1 := fieldOfElem(kv)
+	a2, f2, ok2 := fieldOfElem(fv)
+	if !ok1 || !ok2 || a1 != a2 {
+		return nil, 0, 0, 0, false
+	}
+	at, isArr := deref(a1.Type()).Underlying().(*types.Array)
+	if !isArr {
+		return nil, 0, 0, 0, false
+	}
+	return a1, f1, f2, int(at.Len()), true
+}
+
+// literalArray: v is a slice of (or is) a fresh local array that is written
+// only through constant indexes (a composite literal).
+func literalArray(v ssa.Value) (*ssa.Alloc, bool) {
+	if sl, ok := v.(*ssa.Slice); ok {
+		v = sl.X
+	}
+	al, ok := v.(*ssa.Alloc)
+	if !ok {
+		return nil, false
+	}
+	if _, isArr := deref(al.Type()).Underlying().(*types.Array); !isArr {
+		return nil, false
+	}
+	return al, true
+}
+
+// literalEntryField: the value stored into field f of element i of the literal.
+func literalEntryField(al *ssa.Alloc, i, f int) ssa.Value {
+	if al.Referrers() == nil {
+		return nil
+	}
+	for _, ref := range *al.Referrers() {
+		ia, ok := ref.(*ssa.IndexAddr)
+		if !ok {
+			continue
+		}
+		if k, ok := constInt(ia.Index); !ok || int(k) != i {
+			continue
+		}
+		if ia.Referrers() == nil {
+			continue
+		}
+		for _, r2 := range *ia.Referrers() {
+			fa, ok := r2.(*ssa.FieldAddr)
+			if !ok || fa.Field != f || fa.Referrers() == nil {
+				continue
+			}
+			for _, r3 := range *fa.Referrers() {
+				if st, ok := r3.(*ssa.Store); ok && st.Addr == ssa.Value(fa) {
+					return st.Val
+				}
+			}
+		}
+	}
+	return nil
 }
